@@ -726,11 +726,18 @@ def r9_independent(ctx, prog, cats):
                      "writeto")]
         if not sinks:
             continue
+        unpacked = set()
         for s in walk_no_nested(fi.node):
-            loop = isinstance(s, ast.For) and any(
+            if isinstance(s, ast.Assign) and isinstance(s.value, ast.Call) \
+                    and norm(s.value.func) == "classify_catalog" and \
+                    isinstance(s.targets[0], ast.Tuple):
+                unpacked |= {norm(e) for e in s.targets[0].elts}
+        for s in walk_no_nested(fi.node):
+            loop = isinstance(s, ast.For) and (any(
                 isinstance(c, ast.Call) and
                 norm(c.func) == "classify_catalog"
-                for c in ast.walk(s.iter))
+                for c in ast.walk(s.iter)) or
+                len(unpacked & names_in(s.iter)) >= 2)
             if loop:
                 n += 1
                 bad = []
@@ -794,4 +801,4 @@ def r9_independent(ctx, prog, cats):
                                          norm(anc[0].test, 40)) if anc else
                                ("an earlier `%s`" % norm(rets[0])) if rets
                                else ""), node=c)
-    ctx.floor("C18-R9", n, 3, "per-type write sites")
+    ctx.floor("C18-R9", n, 2, "per-type write sites")
